@@ -128,4 +128,206 @@ theorem ean8_read_write (T : Tables) (hWF : WFUpcEan T = true) (contents full : 
         = digitBytes [d0, d1, d2, d3, d4, d5, d6, d7] := by simp [digitBytes, Nat.add_comm]
     simp only [Nat.add_sub_cancel_left, F6, F7, if_false, Bool.not_true, Bool.false_eq_true, hres, hacc, reduceCtorEq]
 
+/-! ## the parity-encoded left half (EAN-13, UPC-E) -/
+
+/-- row of the L/G table the writer draws digit `d` with at left-half position `j` under parity word `p` -/
+def lgIdx (p j d : Nat) : Nat := if (p / 2 ^ (5 - j)) % 2 = 1 then d + 10 else d
+
+theorem lgIdx_lt (p j d : Nat) (hd : d < 10) : lgIdx p j d < 20 := by unfold lgIdx; split <;> omega
+
+theorem lgIdx_mod (p j d : Nat) (hd : d < 10) : lgIdx p j d % 10 = d := by unfold lgIdx; split <;> omega
+
+theorem lgWord_lgIdx (p d1 d2 d3 d4 d5 d6 : Nat) (hp : p < 64) (h1 : d1 < 10) (h2 : d2 < 10) (h3 : d3 < 10)
+    (h4 : d4 < 10) (h5 : d5 < 10) (h6 : d6 < 10) :
+    lgWord 6 [lgIdx p 0 d1, lgIdx p 1 d2, lgIdx p 2 d3, lgIdx p 3 d4, lgIdx p 4 d5, lgIdx p 5 d6] = p := by
+  have ge : ∀ j d, d < 10 → (lgIdx p j d ≥ 10 ↔ (p / 2 ^ (5 - j)) % 2 = 1) := by
+    intro j d hd; unfold lgIdx; split <;> omega
+  have step : ∀ (c : Prop) [Decidable c] (a k : Nat), (if c then a + k else a) = a + (if c then k else 0) := by
+    intro c _ a k; split <;> rfl
+  have bit : ∀ (x k : Nat), (if x % 2 = 1 then k else 0) = k * (x % 2) := by
+    intro x k
+    split
+    · rename_i h; rw [h]; simp
+    · rename_i h; have : x % 2 = 0 := by omega
+      rw [this]; simp
+  simp only [lgWord, List.length_cons, List.length_nil, Nat.reduceAdd, List.range_succ, List.range_zero, List.nil_append,
+    List.cons_append, List.zip_cons_cons, List.zip_nil_right, List.foldl_cons, List.foldl_nil, ge _ _ h1, ge _ _ h2,
+    ge _ _ h3, ge _ _ h4, ge _ _ h5, ge _ _ h6, Nat.reduceSub, Nat.reducePow, Nat.zero_add, step, bit]
+  omega
+
+theorem lAndG_length (T : Tables) (hT : WFFacts T) : (lAndG T.lPatterns).length = 20 := by
+  simp [lAndG, hT.len]
+
+theorem leftHalf_eq (T : Tables) (hT : WFFacts T) (d0 d1 d2 d3 d4 d5 d6 : Nat) (tl : List Nat) (p : Nat)
+    (h1 : d1 < 10) (h2 : d2 < 10) (h3 : d3 < 10) (h4 : d4 < 10) (h5 : d5 < 10) (h6 : d6 < 10) :
+    leftHalf T (d0 :: d1 :: d2 :: d3 :: d4 :: d5 :: d6 :: tl) p =
+      .ok (appendPattern (digitWidths (lAndG T.lPatterns)
+        [lgIdx p 0 d1, lgIdx p 1 d2, lgIdx p 2 d3, lgIdx p 3 d4, lgIdx p 4 d5, lgIdx p 5 d6]) false) := by
+  have h20 := lAndG_length T hT
+  have hm : (List.range 6).mapM (fun j => do
+        let d ← nth (d0 :: d1 :: d2 :: d3 :: d4 :: d5 :: d6 :: tl) (j + 1)
+        nth (lAndG T.lPatterns) (if (p / 2 ^ (5 - j)) % 2 = 1 then d + 10 else d))
+      = .ok ([lgIdx p 0 d1, lgIdx p 1 d2, lgIdx p 2 d3, lgIdx p 3 d4, lgIdx p 4 d5, lgIdx p 5 d6].map
+          (fun i => (lAndG T.lPatterns).getD i [])) := by
+    have e : [lgIdx p 0 d1, lgIdx p 1 d2, lgIdx p 2 d3, lgIdx p 3 d4, lgIdx p 4 d5, lgIdx p 5 d6].map
+          (fun i => (lAndG T.lPatterns).getD i [])
+        = (List.range 6).map (fun j => (lAndG T.lPatterns).getD
+            (lgIdx p j ((d0 :: d1 :: d2 :: d3 :: d4 :: d5 :: d6 :: tl).getD (j + 1) 0)) []) := by
+      simp [List.range_succ]
+    rw [e]
+    apply mapM_ok
+    intro j hj
+    have hj6 : j < 6 := by simpa using hj
+    have : j = 0 ∨ j = 1 ∨ j = 2 ∨ j = 3 ∨ j = 4 ∨ j = 5 := by omega
+    rcases this with rfl | rfl | rfl | rfl | rfl | rfl
+    · simp only [nth, List.getElem?_cons_succ, List.getElem?_cons_zero, bind, Except.bind, List.getD_cons_succ, List.getD_cons_zero]
+      exact nth_getD _ _ (by rw [h20]; exact lgIdx_lt p 0 d1 h1)
+    · simp only [nth, List.getElem?_cons_succ, List.getElem?_cons_zero, bind, Except.bind, List.getD_cons_succ, List.getD_cons_zero]
+      exact nth_getD _ _ (by rw [h20]; exact lgIdx_lt p 1 d2 h2)
+    · simp only [nth, List.getElem?_cons_succ, List.getElem?_cons_zero, bind, Except.bind, List.getD_cons_succ, List.getD_cons_zero]
+      exact nth_getD _ _ (by rw [h20]; exact lgIdx_lt p 2 d3 h3)
+    · simp only [nth, List.getElem?_cons_succ, List.getElem?_cons_zero, bind, Except.bind, List.getD_cons_succ, List.getD_cons_zero]
+      exact nth_getD _ _ (by rw [h20]; exact lgIdx_lt p 3 d4 h4)
+    · simp only [nth, List.getElem?_cons_succ, List.getElem?_cons_zero, bind, Except.bind, List.getD_cons_succ, List.getD_cons_zero]
+      exact nth_getD _ _ (by rw [h20]; exact lgIdx_lt p 4 d5 h5)
+    · simp only [nth, List.getElem?_cons_succ, List.getElem?_cons_zero, bind, Except.bind, List.getD_cons_succ, List.getD_cons_zero]
+      exact nth_getD _ _ (by rw [h20]; exact lgIdx_lt p 5 d6 h6)
+  unfold leftHalf
+  simp only [bind, Except.bind, pure, Except.pure] at hm
+  simp only [bind, Except.bind, pure, Except.pure, hm]
+  rw [flatten_map_appendPattern]
+  · rfl
+  · intro q hq
+    obtain ⟨i, hi, rfl⟩ := List.mem_map.mp hq
+    have hi' : i < (lAndG T.lPatterns).length := by
+      rw [h20]
+      simp only [List.mem_cons, List.mem_nil_iff, or_false] at hi
+      rcases hi with rfl | rfl | rfl | rfl | rfl | rfl <;> exact lgIdx_lt _ _ _ (by assumption)
+    rw [getD_eq_getElem _ _ _ hi', (hT.tabLG.shape _ (List.getElem_mem hi')).1]
+
+/-! ## EAN-13 and UPC-A -/
+
+theorem nthN_getD (l : List Nat) (i : Nat) (hi : i < l.length) : nth l i = .ok (l.getD i 0) := by
+  simp [nth, List.getD_eq_getElem?_getD, List.getElem?_eq_getElem hi]
+
+theorem symbol_join (g DL m DR e : List Nat) (hg : g.length % 2 = 1) (hDL : DL.length % 2 = 0) (hm : m.length % 2 = 1)
+    (hDR : DR.length % 2 = 0) :
+    appendPattern g true ++ appendPattern DL false ++ appendPattern m false ++ appendPattern DR true ++ appendPattern e true
+      = appendPattern (g ++ DL ++ m ++ DR ++ e) true := by
+  simp only [appendPattern_append, List.length_append]
+  have p1 : ¬ g.length % 2 = 0 := by omega
+  have p2 : ¬ (g.length + DL.length) % 2 = 0 := by omega
+  have p3 : (g.length + DL.length + m.length) % 2 = 0 := by omega
+  have p4 : (g.length + DL.length + m.length + DR.length) % 2 = 0 := by omega
+  simp only [p1, p2, p3, p4, if_false, if_true, Bool.not_true, Bool.not_false]
+
+theorem ean13_modules_eq (T : Tables) (hT : WFFacts T) (contents : List Nat)
+    (d0 d1 d2 d3 d4 d5 d6 d7 d8 d9 d10 d11 d12 : Nat)
+    (hd : ∀ d ∈ [d0, d1, d2, d3, d4, d5, d6, d7, d8, d9, d10, d11, d12], d < 10)
+    (hw : stdWriterContents 13 contents = .ok (digitBytes [d0, d1, d2, d3, d4, d5, d6, d7, d8, d9, d10, d11, d12])) :
+    ean13Modules T contents = .ok (appendPattern (T.startEnd ++
+      digitWidths (lAndG T.lPatterns)
+        [lgIdx (T.firstDigit.getD d0 0) 0 d1, lgIdx (T.firstDigit.getD d0 0) 1 d2, lgIdx (T.firstDigit.getD d0 0) 2 d3,
+         lgIdx (T.firstDigit.getD d0 0) 3 d4, lgIdx (T.firstDigit.getD d0 0) 4 d5, lgIdx (T.firstDigit.getD d0 0) 5 d6] ++
+      T.middle ++ digitWidths T.lPatterns [d7, d8, d9, d10, d11, d12] ++ T.startEnd) true) := by
+  have hlen := hT.len
+  have hfd := hT.fd
+  simp only [WFParity, Bool.and_eq_true, beq_iff_eq] at hfd
+  simp only [List.mem_cons, List.mem_nil_iff, or_false, forall_eq_or_imp, forall_eq] at hd
+  obtain ⟨h0, h1, h2, h3, h4, h5, h6, h7, h8, h9, h10, h11, h12⟩ := hd
+  have hl2 : (List.range 6).mapM (fun j => do
+        let d ← nth [d0, d1, d2, d3, d4, d5, d6, d7, d8, d9, d10, d11, d12] (j + 7); nth T.lPatterns d)
+      = .ok ([d7, d8, d9, d10, d11, d12].map (fun i => T.lPatterns.getD i [])) := by
+    simp [List.range_succ, nth, bind, Except.bind, pure, Except.pure, List.getD_eq_getElem?_getD, *]
+  have hfirst : nth [d0, d1, d2, d3, d4, d5, d6, d7, d8, d9, d10, d11, d12] 0 = .ok d0 := by simp [nth]
+  have hpar := nthN_getD T.firstDigit d0 (by omega)
+  have hleft := leftHalf_eq T hT d0 d1 d2 d3 d4 d5 d6 [d7, d8, d9, d10, d11, d12] (T.firstDigit.getD d0 0) h1 h2 h3 h4 h5 h6
+  unfold ean13Modules
+  simp only [bind, Except.bind, pure, Except.pure] at hl2
+  simp only [hw, bind, Except.bind, pure, Except.pure, digitVals_digitBytes, hfirst, hpar, hleft, hl2]
+  have h20 := lAndG_length T hT
+  obtain ⟨e1, _⟩ := digitWidths_shape hT.tabLG
+    [lgIdx (T.firstDigit.getD d0 0) 0 d1, lgIdx (T.firstDigit.getD d0 0) 1 d2, lgIdx (T.firstDigit.getD d0 0) 2 d3,
+     lgIdx (T.firstDigit.getD d0 0) 3 d4, lgIdx (T.firstDigit.getD d0 0) 4 d5, lgIdx (T.firstDigit.getD d0 0) 5 d6] (by
+      intro i hi
+      rw [h20]
+      simp only [List.mem_cons, List.mem_nil_iff, or_false] at hi
+      rcases hi with rfl | rfl | rfl | rfl | rfl | rfl <;> exact lgIdx_lt _ _ _ (by assumption))
+  obtain ⟨e2, _⟩ := digitWidths_shape hT.tabL [d7, d8, d9, d10, d11, d12] (by simp; omega)
+  have hev : ∀ p ∈ [d7, d8, d9, d10, d11, d12].map (fun i => T.lPatterns.getD i []), p.length % 2 = 0 := by
+    intro p hp
+    obtain ⟨i, hi, rfl⟩ := List.mem_map.mp hp
+    have hi' : i < T.lPatterns.length := by
+      simp only [List.mem_cons, List.mem_nil_iff, or_false] at hi
+      rcases hi with rfl | rfl | rfl | rfl | rfl | rfl <;> omega
+    rw [getD_eq_getElem _ _ _ hi', (hT.tabL.shape _ (List.getElem_mem hi')).1]
+  rw [flatten_map_appendPattern _ true hev]
+  congr 1
+  exact symbol_join _ _ _ _ _ hT.gOdd (by rw [e1]; omega) hT.mOdd (by
+    have : ([d7, d8, d9, d10, d11, d12].map (fun i => T.lPatterns.getD i [])).flatten = digitWidths T.lPatterns [d7, d8, d9, d10, d11, d12] := rfl
+    rw [this, e2]; omega)
+
+theorem ean13_core (T : Tables) (hWF : WFUpcEan T = true) (k : EanKind) (hk : k = .ean13 ∨ k = .upca)
+    (contents full : List Nat) (hw : stdWriterContents 13 contents = .ok full)
+    (hupca : k = .upca → full.head? = some 48)
+    (lq s rq : Nat) (hs : 0 < s) (hlq : s * sumL T.startEnd ≤ lq) (hrq : s * sumL T.startEnd < rq) :
+    ∃ mods, ean13Modules T contents = .ok mods ∧
+      decodeRow T k (paddedRow lq s rq mods) = .ok (upceanCanonical k full) := by
+  have hT := wfFacts T hWF
+  obtain ⟨fd, rfl, hlen, hd, hv⟩ := std_full 13 (by omega) (by omega) contents full hw
+  match fd, hlen with
+  | [d0, d1, d2, d3, d4, d5, d6, d7, d8, d9, d10, d11, d12], _ =>
+    have hm := ean13_modules_eq T hT contents d0 d1 d2 d3 d4 d5 d6 d7 d8 d9 d10 d11 d12 hd hw
+    refine ⟨_, hm, ?_⟩
+    have hacc := readerAccept_std .ean13 (by decide) _ (by simp) hd hv
+    have hd' := hd
+    simp only [List.mem_cons, List.mem_nil_iff, or_false, forall_eq_or_imp, forall_eq] at hd'
+    obtain ⟨h0, h1, h2, h3, h4, h5, h6, h7, h8, h9, h10, h11, h12⟩ := hd'
+    have hlen10 := hT.len
+    have h20 := lAndG_length T hT
+    have hfd := hT.fd
+    have hfdl : T.firstDigit.length = 10 := by
+      simp only [WFParity, Bool.and_eq_true, beq_iff_eq] at hfd; exact hfd.1
+    generalize hp : T.firstDigit.getD d0 0 = p at *
+    have hpe : p = T.firstDigit[d0]'(by omega) := by rw [← hp]; exact getD_eq_getElem _ _ _ (by omega)
+    have hp64 : p < 64 := by rw [hpe]; exact hT.fd64 _ (List.getElem_mem _)
+    obtain ⟨F1, F2, F3, F4, F5, F6, F7⟩ := twoHalf_facts T hT (lAndG T.lPatterns) hT.tabLG
+      [lgIdx p 0 d1, lgIdx p 1 d2, lgIdx p 2 d3, lgIdx p 3 d4, lgIdx p 4 d5, lgIdx p 5 d6] [d7, d8, d9, d10, d11, d12]
+      (by
+        intro i hi
+        rw [h20]
+        simp only [List.mem_cons, List.mem_nil_iff, or_false] at hi
+        rcases hi with rfl | rfl | rfl | rfl | rfl | rfl <;> exact lgIdx_lt _ _ _ (by assumption))
+      (by simp; omega) lq s rq hs hlq hrq _ rfl
+    have e6 : ∀ (a b c d e f : Nat), [a, b, c, d, e, f].length = 6 := fun _ _ _ _ _ _ => rfl
+    simp only [e6] at F2 F3 F4 F5 F6 F7
+    generalize paddedRow lq s rq _ = row at *
+    have hdet : determineFirstDigit T.firstDigit
+        (lgWord 6 [lgIdx p 0 d1, lgIdx p 1 d2, lgIdx p 2 d3, lgIdx p 3 d4, lgIdx p 4 d5, lgIdx p 5 d6]) = .ok d0 := by
+      rw [lgWord_lgIdx p d1 d2 d3 d4 d5 d6 hp64 h1 h2 h3 h4 h5 h6, hpe]
+      obtain ⟨_, hs10⟩ := scan10_getElem hfd d0 h0
+      exact hs10
+    have hres : ((48 + d0) :: List.map (fun m => 48 + m % 10)
+          [lgIdx p 0 d1, lgIdx p 1 d2, lgIdx p 2 d3, lgIdx p 3 d4, lgIdx p 4 d5, lgIdx p 5 d6]) ++
+          List.map (fun x => 48 + x) [d7, d8, d9, d10, d11, d12]
+        = digitBytes [d0, d1, d2, d3, d4, d5, d6, d7, d8, d9, d10, d11, d12] := by
+      simp only [List.map_cons, List.map_nil, lgIdx_mod _ _ _ h1, lgIdx_mod _ _ _ h2, lgIdx_mod _ _ _ h3,
+        lgIdx_mod _ _ _ h4, lgIdx_mod _ _ _ h5, lgIdx_mod _ _ _ h6, digitBytes, List.cons_append, List.nil_append,
+        Nat.add_comm 48]
+    rcases hk with rfl | rfl
+    · simp only [decodeRow, F1, notFoundOf, bind, Except.bind, decodeWithStart, ean13DecodeMiddle, F2, F3, F4, F5,
+        pure, Except.pure, hdet, Nat.add_sub_cancel_left, F6, F7, if_false, Bool.not_true, Bool.false_eq_true,
+        reduceCtorEq, upceanCanonical]
+      rw [hres, hacc]
+    · have hz : d0 = 0 := by
+        have := hupca rfl
+        simp [digitBytes] at this
+        exact this
+      subst hz
+      simp only [decodeRow, F1, notFoundOf, bind, Except.bind, decodeWithStart, ean13DecodeMiddle, F2, F3, F4, F5,
+        pure, Except.pure, hdet, Nat.add_sub_cancel_left, F6, F7, if_false, Bool.not_true, Bool.false_eq_true,
+        reduceCtorEq, upceanCanonical, if_true]
+      rw [hres, hacc]
+      simp [digitBytes]
+
 end Gzx.OneD
